@@ -2443,6 +2443,13 @@ BATTERIES = {"c02": b_c02, "c13": b_c13, "c08": b_c08, "c16": b_c16, "c05": b_c0
 
 
 def main():
+    # every scratch file of this run lives below one directory that is removed at exit
+    import atexit
+    import shutil
+    base = tempfile.mkdtemp(prefix="nixverif_bnd_")
+    tempfile.tempdir = base
+    os.environ["TMPDIR"] = base                      # (writer child processes of the c17 battery inherit it)
+    atexit.register(shutil.rmtree, base, True)
     name, repo = sys.argv[1], sys.argv[2]
     tier = sys.argv[3] if len(sys.argv) > 3 else "quick"
     import nixio
